@@ -91,6 +91,9 @@ type c18Inst struct {
 	Alpha  []c18Op
 	order  []int // key indices sorted by path
 	prefix bool  // some path is a prefix of another one
+	// Start: operations applied before every enumerated history (a non-initial start state); they
+	// do not count towards the depth bound
+	Start []c18Op
 }
 
 func (in *c18Inst) opString(o c18Op) string {
@@ -127,7 +130,15 @@ func (in *c18Inst) histString(h []c18Op) string {
 	for i, o := range h {
 		s[i] = in.opString(o)
 	}
-	return "[" + strings.Join(s, " ") + "]"
+	pre := ""
+	if len(in.Start) > 0 {
+		ps := make([]string, len(in.Start))
+		for i, o := range in.Start {
+			ps[i] = in.opString(o)
+		}
+		pre = "start{" + strings.Join(ps, " ") + "} "
+	}
+	return pre + "[" + strings.Join(s, " ") + "]"
 }
 
 func (in *c18Inst) finish() {
@@ -185,6 +196,21 @@ func c18RawInst() *c18Inst {
 		in.Paths = append(in.Paths, []byte(k))
 	}
 	in.finish()
+	return in
+}
+
+// c18FanInst: three sibling keys under one extension node (root = short[6,1] -> full{1,2,3}), a fourth
+// key that splits the extension; every history starts from the trie that already holds the three
+// siblings (inserted, not yet hashed), so that hash/commit followed by a delete that leaves the
+// branch node in place is within the quick depth.
+func c18FanInst() *c18Inst {
+	in := &c18Inst{Name: "fan"}
+	for _, k := range []string{"a\x10", "a\x20", "a\x30", "b"} {
+		in.Keys = append(in.Keys, []byte(k))
+		in.Paths = append(in.Paths, []byte(k))
+	}
+	in.finish()
+	in.Start = []c18Op{{Kind: "upd", K: 0, V: 0}, {Kind: "upd", K: 1, V: 2}, {Kind: "upd", K: 2, V: 2}}
 	return in
 }
 
@@ -529,8 +555,10 @@ func (r *c18Run) apply(step int, o c18Op) *c18Fail {
 			// the dirty cache used the way core/state uses it: reference the new root, release the
 			// previous one. Copies taken earlier may legitimately lose their nodes: drop them.
 			r.frozen = nil
+			// (exactly the loop of StateProcessor.StateAtBlock: also when the root did not change, in
+			// which case the root is referenced twice and released once)
 			r.tdb.Reference(root, common.Hash{})
-			if r.prevRef != (common.Hash{}) && r.prevRef != root {
+			if r.prevRef != (common.Hash{}) {
 				r.tdb.Dereference(r.prevRef)
 			}
 			r.prevRef = root
@@ -569,6 +597,13 @@ func (in *c18Inst) run(hist []c18Op, lvl c18Level, cache *c18Cache, st *c18Stats
 		if err != nil {
 			fails = append(fails, c18Fail{in.Name + ":open-empty", err.Error()})
 			return
+		}
+		for i, o := range in.Start {
+			if f := r.apply(-1-i, o); f != nil {
+				f.Desc = fmt.Sprintf("start state of %s: step %d (%s): %s", in.Name, i, in.opString(o), f.Desc)
+				fails = append(fails, *f)
+				return
+			}
 		}
 		for i, o := range hist {
 			if f := r.apply(i, o); f != nil {
@@ -1151,7 +1186,7 @@ func runC18(c *vx.Ctx) {
 			vals = append(vals, fmt.Sprintf("%d bytes", len(v)))
 		}
 		st.p.Bound("values", vals)
-		for _, in := range []*c18Inst{c18RawInst(), c18SecureInst()} {
+		for _, in := range []*c18Inst{c18RawInst(), c18SecureInst(), c18FanInst()} {
 			var ks []string
 			for k := range in.Keys {
 				if in.Secure {
@@ -1470,7 +1505,7 @@ func replayC18(c *vx.Ctx, v vx.Violation) string {
 	switch rp.Part {
 	case "histories":
 		var in *c18Inst
-		for _, x := range []*c18Inst{c18RawInst(), c18SecureInst()} {
+		for _, x := range []*c18Inst{c18RawInst(), c18SecureInst(), c18FanInst()} {
 			if x.Name == rp.Inst {
 				in = x
 			}
